@@ -306,7 +306,8 @@ impl<'a> Driver<'a> {
     pub fn seal_next(&mut self, with_action: Option<bool>) -> Option<usize> {
         let act = match with_action.unwrap_or_else(|| self.r.gen_bool(0.6)) {
             true => {
-                let dest = self.wal.random_address(&mut self.r);
+                // now and then the reward goes to the coin-destruction address (it is still a coin of the state)
+                let dest = if self.r.gen_bool(0.15) { Address::coin_destroy() } else { self.wal.random_address(&mut self.r) };
                 Some(ProposerAction { fee_multiplier_delta: self.r.gen_range(-128i32..=127) as i8, reward_dest: dest })
             }
             false => None,
